@@ -13,9 +13,9 @@ def gen_data_tree(rng, depth=0, max_depth=3, ns=None):
     """data style: nothing / one text / structural nodes separated by one space"""
     ns = ns if (ns is not None and rng.random() < 0.7) else rng.choice(["", "", "urn:x", "urn:y"])
     at = []
-    for _ in range(rng.choice([0, 0, 1, 2, 3])):
+    for _ in range(rng.choice([0, 0, 1, 2, 3, 3, 6])):
         ans = rng.choice(["", "", "urn:x", "urn:z"])
-        an = rng.choice(["id", "n", "type", "k", "longer-name"])
+        an = rng.choice(["id", "n", "type", "k", "longer-name", "a.b", "_x", "n1"])
         if not any(a[0] == ans and a[1] == an for a in at):
             at.append([ans, an, rng.choice(["", "1", "v w", "a&b", '"q"', "<"])])
     r = rng.random()
@@ -25,7 +25,7 @@ def gen_data_tree(rng, depth=0, max_depth=3, ns=None):
         kids = [["x", " ".join(rng.choice(DATA_WORDS) for _ in range(rng.randint(1, 4)))]]
     else:
         kids = []
-        for i in range(rng.randint(1, 4)):
+        for i in range(rng.randint(1, 4) if rng.random() < 0.93 else rng.randint(9, 14)):
             if kids:
                 kids.append(["x", " "])
             q = rng.random()
@@ -35,7 +35,7 @@ def gen_data_tree(rng, depth=0, max_depth=3, ns=None):
                 kids.append(["p", rng.choice(["pi", "target"]), rng.choice(["x=1", "data"])])
             else:
                 kids.append(gen_data_tree(rng, depth + 1, max_depth, ns))
-    return ["t", ns, rng.choice(trees.NAMES), at, kids]
+    return ["t", ns, rng.choice(trees.NAMES + (trees.ODD_NAMES if rng.random() < 0.1 else [])), at, kids]
 
 
 def gen_reduced_tree(rng):
